@@ -195,3 +195,23 @@ func verifDescribe(e map[string]interface{}, m rpccp.Message) {
 		e["m"] = "other"
 	}
 }
+
+// verifSync records one synchronisation event of the connection (sender lock
+// acquired / released, task added / done, the phases of shutdown) in the same
+// per-connection sequence as the wire messages.  Call sites are single added
+// lines placed so that the recorded order is the order of the state changes:
+// under c.mu for the sender lock and task-add, before tasks.Done, after
+// tasks.Wait.
+func verifSync(c *Conn, what string) {
+	vt, ok := c.transport.(*verifTransport)
+	if !ok {
+		return
+	}
+	vt.mu.Lock()
+	vt.seq++
+	b, _ := json.Marshal(map[string]interface{}{"pid": vt.pid, "conn": vt.conn, "dir": "sync", "m": what, "seq": vt.seq})
+	verifTraceMu.Lock()
+	verifTraceFile.Write(append(b, '\n'))
+	verifTraceMu.Unlock()
+	vt.mu.Unlock()
+}
